@@ -248,6 +248,35 @@ func TestVerifC19(t *testing.T) {
 		}
 	}
 
+	// SHORT key encodings (1, 16, 31 bytes): the nonce draw is 32 bytes whatever the length of the key argument; a source
+	// that ends anywhere inside it must make the call fail
+	for _, kl := range []int{1, 16, 31} {
+		db := append([]byte{1 + byte(rng.Intn(255))}, rng.Bytes(kl-1)...)
+		d2 := new(big.Int).SetBytes(db)
+		stream := append(ref.B32(randScalar(rng)), rng.Bytes(32)...)
+		for failAt := 0; failAt <= 33; failAt++ {
+			rd := newScript(stream)
+			rd.failAt, rd.failErr, rd.failWithData, rd.chunk = failAt, errKinds[failAt%3], failAt%2 == 0, []int{0, 1, 7}[failAt%3]
+			model := ref.SM2Sign(d2, e, stream[:failAt])
+			var rr, ss []byte
+			var err error
+			p, pm, _, _ := hk.Try(func() { rr, ss, err = SignHashed(rd, db, e) })
+			det := hk.D{"priv": hk.Hex(db), "keylen": kl, "stream": hk.Hex(stream), "fail_at": failAt, "r": hexOrNil(rr), "s": hexOrNil(ss), "error": errStr(err)}
+			switch {
+			case p:
+				det["panic"] = pm
+				r.Violation("panic-on-failing-source:SignHashed:short-key", det)
+			case model.Short && err != nil && rr == nil && ss == nil:
+			case model.Short && err != nil && len(db) < 32 && rr == nil:
+			case model.Short:
+				r.Violation("signature-returned-although-source-failed:SignHashed:short-key", det)
+			case err != nil || !bytes.Equal(rr, ref.B32(model.R)) || !bytes.Equal(ss, ref.B32(model.S)):
+				r.Violation("short-reads-not-completed:SignHashed:short-key", det)
+			}
+			r.Eval(fmt.Sprintf("SignHashed:keylen=%d,fail=+%d", kl, failAt))
+		}
+	}
+
 	// STALLS: the source returns (0, nil) many times in a row in the middle of a draw (a device that is not
 	// ready) and then goes on. The call must either complete the draw (model result) or give up with an error
 	// and nothing else; it must never go on with a partly filled nonce or key.
